@@ -72,3 +72,8 @@ Section Wf.
     eapply zone_wf_perm; [symmetry; exact Hp|exact Hw].
   Qed.
 End Wf.
+
+Lemma printed_order_perm st nodes : Permutation (printed_order st nodes) nodes.
+Proof.
+  unfold printed_order. destruct (st_sorted st); [apply ZoneTextSweep.zsort_perm|reflexivity].
+Qed.
